@@ -131,7 +131,7 @@ def _extract_one(job):
     if STD_OVERRIDE:
         flags = [a for a in flags if not a.startswith("-std=")] + ["-std=" + STD_OVERRIDE[0]]
     cmd = [FACTS_BIN, "--root", REPO + "/include", "--root", REPO + "/src", "--root", VERIF + "/witness",
-           "--root", VERIF + "/fixtures", "-o", out, src, "--"] + flags + ["-D" + m for m in EXTRA_DEFINES] + ["-resource-dir", rdir, "-UNDEBUG",
+           "--root", VERIF + "/fixtures", "-o", out, src, "--"] + flags + ["-UNDEBUG"] + [("-U" + m[1:]) if m.startswith("!") else ("-D" + m) for m in EXTRA_DEFINES] + ["-resource-dir", rdir,
                                                                                                                   "-Wno-everything"]
     t0 = time.time()
     r = subprocess.run(cmd, stdout=subprocess.PIPE, stderr=subprocess.STDOUT, text=True)
@@ -236,6 +236,43 @@ def unknown_switches():
         if m in known or m.startswith("__") or (m.startswith("_") and m[1:2].isupper()):
             continue
         out.append((m, where))
+    return out
+
+
+def extra_configurations():
+    """configurations the sources ask for without a switch of their own:
+    - `NDEBUG`, when a library source uses assert(): what stands inside an assert is gone in a release build;
+    - `-U<feature macro>` for every language / library feature-test macro (`__cpp_*`) the sources test that the frozen table does
+      not know: the branch for compilers without the feature (e.g. the C++14 branch of a header) is code of the library, too.
+    -> [(label, define token, where)]"""
+    import re
+    out = []
+    known = set()
+    if os.path.exists(KNOWN_MACROS_FILE):
+        known = {l.strip() for l in open(KNOWN_MACROS_FILE) if l.strip() and not l.startswith("#")}
+    for m, where in sorted(tested_macros().items()):
+        if m.startswith("__cpp_") and m not in known:
+            out.append(("-U" + m, "!" + m, where))
+    for top in ("include", "src"):
+        hit = None
+        for root, dirs, files in os.walk(os.path.join(REPO, top)):
+            dirs.sort()
+            for f in sorted(files):
+                p = os.path.join(root, f)
+                try:
+                    text = open(p, encoding="latin-1").read()
+                except OSError:
+                    continue
+                text = re.sub(r"//[^\n]*|/\*.*?\*/", "", text, flags=re.S)
+                m = re.search(r"\bassert\s*\(", text)
+                if m and re.search(r"#\s*include\s*<(cassert|assert\.h)>", text):
+                    hit = "%s:%d" % (p, text[:m.start()].count("\n") + 1)
+                    break
+            if hit:
+                break
+        if hit:
+            out.append(("-DNDEBUG", "NDEBUG", hit))
+            break
     return out
 
 
